@@ -48,7 +48,9 @@ def tag_value(rng, t, canonical=True):
         return "".join(rng.choice("abcXYZ 019:;,.*+-_#/") for _ in range(n))
     if t == "J":
         obj = rng.choice([{"a": 1}, [1, 2, 3], {"k": [1, {"z": None}], "b": "x y"}, [], {},
-                          [1.5, "s", True], {"n": {"m": {"l": [0]}}}, ["a b", -3]])
+                          [1.5, "s", True], {"n": {"m": {"l": [0]}}}, ["a b", -3],
+                          # strings that are written with escapes (non-ASCII text, quotes, backslashes)
+                          {"g\u00e9": "caf\u00e9-1"}, ["\u540d", "a\"b\\c"], {"t": "x\ty\u007f"}])
         if not canonical and rng.random() < 0.6:
             return json.dumps(obj, separators=(",", ":"))
         return json.dumps(obj)
